@@ -169,6 +169,20 @@ reg('C17', True,
     'that exactly `count` states result (only the upper bound and the endpoint retention are structural).',
     'clang 14 AST/CFG of PathSimplifier.cpp, PathGeometric.cpp, PathHybridization.cpp; objective and motion validator opaque',
     'guard dominance + path-sensitive must-hold facts over clang CFG, linear-normal-form range agreement')
-for _p in ['C06', 'C07', 'C14', 'C15', 'C16',
+reg('C06', True,
+    'Decides, in an algebraic normal form of the distance / equalStates / flag routines (ring axioms, evenness of '
+    'fabs and cos, oddness of sin, commutative min/max, loop sums), the clauses that are visible in the shape of the '
+    'code: the compound distance and extent are the weighted folds over all components and the compound flags are the '
+    'conjunction of the component flags (this is the statement\'s last clause); wrapper spaces forward distance, '
+    'equality, extent and flags unchanged; every space that claims a symmetric distance has a swap-invariant distance '
+    'expression (R^n, SO(2), SO(3), time, discrete, sphere, torus, Moebius, compound, space-time; Dubins under its '
+    'isSymmetric_ flag); d(a,a) normalises to 0 and equalStates(a,a) to true; equalStates compares nothing that '
+    'distance ignores and is invariant under q ~ -q where the SO(3) distance is; no Dubins path constructor returns a '
+    'path that ignores a pose coordinate. Not decided: the triangle inequality, d <= getMaximumExtent, positivity for '
+    'nearly equal states (floating point), Reeds-Shepp symmetry and the Klein-bottle seam (hold only through '
+    'arithmetic the normal form does not capture; listed).',
+    'clang 14 AST of 20 units (all state spaces + wrappers); component spaces are opaque calls under an induction hypothesis',
+    'algebraic normal-form rewriting of the typed AST under parameter substitutions (swap, alias, sign flip) + data/control dependence of returns')
+for _p in ['C07', 'C14', 'C15', 'C16',
            'C20']:
     reg(_p, False, '', '', '', PENDING)
